@@ -106,6 +106,9 @@ static int empty_polls;
 static int autotask_left;
 static int prev_wait_eintr;
 static int reenter_left;
+static int reuse_fd = -1, reuse_wfd = -1;
+static int script_iter, script_done;
+static struct act script_act;
 #define prev_wait_eintr_for_skip 0
 static int cycle, cycles;
 
@@ -426,6 +429,27 @@ static void perform(const struct act *a)
 					close(badfd);
 				if (expect_fail && ret == 0)
 					FAIL("try-should-fail", "iv_fd_register_try succeeded on a %s", a->b ? "regular file" : "closed descriptor");
+				if (ret != 0 && a->b == 0 && reuse_fd < 0) {
+					/* the closed descriptor number is taken by an unrelated, permanently readable descriptor at once */
+					int pp[2];
+					if (pipe(pp) == 0) {
+						if (write(pp[1], "r", 1) != 1) {}
+						/* pipe() itself usually hands out the just-freed number */
+						if (pp[1] == badfd) {
+							int t = dup(pp[1]);
+							close(pp[1]);
+							pp[1] = t;
+						}
+						if (pp[0] != badfd) {
+							reuse_fd = dup2(pp[0], badfd);
+							close(pp[0]);
+						} else {
+							reuse_fd = badfd;
+						}
+						reuse_wfd = pp[1];
+						mc_obs("fdnum-reused");
+					}
+				}
 				if (ret != 0) {
 					if (iv_fd_registered(f->p))
 						FAIL("failed-register-side-effect", "iv_fd_registered() true after failed iv_fd_register_try");
@@ -779,6 +803,11 @@ static void fd_default(void *_x)
 {
 	struct fdcb *x = _x;
 	struct fdslot *f = x->f;
+	if (script_iter && !script_done && iter >= script_iter) {
+		/* scripted application step of this seed (cost 0) */
+		script_done = 1;
+		perform(&script_act);
+	}
 	char buf[256];
 	ssize_t r;
 	switch (x->band) {
@@ -1259,7 +1288,7 @@ static uint64_t canon_hash(struct env_wait *w)
 }
 
 /* ---------------------------------------------------------------- seeds */
-struct seed { const char *name; int autofeed; struct act a[10]; };
+struct seed { const char *name; int autofeed; struct act a[10]; int script_iter; struct act script; };
 #define A(o, x, y, z) { o, x, y, z }
 #define END { -1, 0, 0, 0 }
 static const struct seed seeds[] = {
@@ -1295,6 +1324,8 @@ static const struct seed seeds[] = {
 	/* 27 */ { "task-chain,timer+10ms,fd0-idle", 0, { A(OP_TK_REG, 0, 0, 0), A(OP_TM_REG, 0, 4, 0), A(OP_FD_REG, 0, 0, 0), END } },
 	/* 28 */ { "fd0-err-only,fd1-in-fed", 0, { A(OP_FD_REG, 0, 4, 0), A(OP_FD_REG, 1, 0, 0), A(OP_FD_FEED, 1, 0, 0), END } },
 	/* 29 */ { "fd0-err-only-hup,fd1-in-idle", 0, { A(OP_FD_REG, 0, 4, 0), A(OP_FD_REG, 1, 0, 0), A(OP_FD_PCLOSE, 0, 0, 0), END } },
+	/* 30 */ { "chatty-fd0,timer+10ms-unregistered-at-iteration-7", 8, { A(OP_FD_REG, 0, 0, 0), A(OP_FD_FEED, 0, 0, 0), A(OP_TM_REG, 0, 4, 0), END }, 7, A(OP_TM_UNREG, 0, 0, 0) },
+	/* 31 */ { "two-events-posted,fd0-idle", 0, { A(OP_EV_REG, 0, 0, 0), A(OP_EV_REG, 1, 0, 0), A(OP_EV_POST, 0, 0, 0), A(OP_EV_POST, 1, 0, 0), A(OP_FD_REG, 0, 0, 0), END } },
 };
 #define NSEEDS ((int)(sizeof(seeds) / sizeof(seeds[0])))
 
@@ -1460,6 +1491,9 @@ next_cycle:
 	for (i = 0; sd->a[i].op >= 0; i++)
 		perform(&sd->a[i]);
 	autofeed_left = sd->autofeed;
+	script_iter = sd->script_iter;
+	script_act = sd->script;
+	script_done = 0;
 	autotask_left = mc_arg_int("autotask", 0);
 	reenter_left = mc_arg_int("reenter", 1);
 	for (i = 0; i < setup_acts; i++) {
